@@ -16,6 +16,36 @@ CLAIMS = {
             "and compared with an exact sparse model; held = no mismatch on the counted nodes. "
             "Exploration is the right level: the input space is unbounded and the oracle is exact.",
             "3 C01"),
+    "C02": ("reference-model monitor on evaluation/substitution + metamorphic riders",
+            "Seeded polynomial arrays are called with full / partial / positional / keyword / None "
+            "assignments of Python numbers, numpy scalars of every width, broadcasting arrays and "
+            "polynomials; the returned array or polynomial is compared with exact substitution in "
+            "the model; unknown / double names must raise TypeError; staged evaluation and "
+            "type-carrier independence ride on the same executions.",
+            "3 C02"),
+    "C04": ("invariant monitor on the returned tuples + reference model + byte snapshots",
+            "Every align_* call on seeded tuples of polynomial-likes is checked for model equality "
+            "with the (broadcast) inputs, order, shared shape / ordered names / exponent rows and "
+            "keys, idempotence, and byte-identical arguments.",
+            "3 C04"),
+    "C05": ("step monitor (sys.monitoring JUMP back-edges, cycle detection) + exact identity oracle",
+            "Each division runs under a logical step monitor that digests the running dividend on "
+            "every back-edge of the poly_divmod loop (repeat = proven cycle; budget 10000), and the "
+            "returned (q, r) is checked in the exact model: identity within rounding, constant "
+            "divisors, exact multiples, univariate degree bound, operator spellings.",
+            "3 C05"),
+    "C06": ("reference-model monitor under all 16 retain/sort option settings",
+            "derivative / gradient / hessian results are compared with the model's formal partials "
+            "for every designation kind and option setting; mixed partials, linearity and product "
+            "rule ride along.",
+            "3 C06"),
+    "C07": ("offline order checker over recorded relation matrices + documented-order model",
+            "Universes of small polynomials are compared against themselves with one broadcast call "
+            "per operator; trichotomy, complements, antisymmetry, transitivity over all triples and "
+            "agreement with the documented monomial order are decided on the six boolean matrices, "
+            "under all four sort settings and in operator and function spellings; random larger "
+            "pairs and maximum/minimum too.",
+            "3 C07"),
     "C09": ("reference-model monitor: numpy itself on an object array of opaque model elements",
             "Every shape / join / split / select / indexing function of the statement is called with "
             "seeded valid arguments in the numpoly, numpy and method spellings; the result shape and "
